@@ -76,8 +76,28 @@ func runC02(c *Ctx) {
 	if fn := L.fn(modPath, "Value"); fn != nil {
 		c.seen(fnName(fn))
 		ok := false
+		var wrapped []ssa.Value
 		for _, st := range storesToField([]*ssa.Function{fn}, "github.com/mazrean/kessoku.fnProvider.fn") {
-			if mc, isC := st.Val.(*ssa.MakeClosure); isC {
+			wrapped = append(wrapped, st.Val)
+		}
+		// Value may also delegate to Provide (checked above to store exactly its argument)
+		for _, cs := range callsIn(fn) {
+			if callee := cs.common.StaticCallee(); callee != nil && len(cs.common.Args) == 1 && cs.value() != nil {
+				o := callee
+				if callee.Origin() != nil {
+					o = callee.Origin()
+				}
+				if o == L.fn(modPath, "Provide") {
+					for _, r := range returnsOf(fn) {
+						if len(r.Results) == 1 && resolve(r.Results[0]) == ssa.Value(cs.value()) {
+							wrapped = append(wrapped, cs.arg(0))
+						}
+					}
+				}
+			}
+		}
+		for _, w := range wrapped {
+			if mc, isC := resolve(w).(*ssa.MakeClosure); isC {
 				cl := mc.Fn.(*ssa.Function)
 				rets := returnsOf(cl)
 				if len(rets) == 1 && len(mc.Bindings) == 1 {
